@@ -159,4 +159,223 @@ theorem C16_lossless_structs_roundtrip :
       ∧ ∀ p, fromParagraph losslessBackend spec (updateParagraph losslessBackend spec x p) = .ok x :=
   C16_structs_roundtrip losslessBackend C16_lossless_lawful
 
+/-! ## Part C — entry for entry the lossy paragraph
+
+  `SameReads` compares what `get` shows (the first field of each name). The lossless edits do more:
+  on the item list (`Paragraph::items`: every field, in order, duplicates included) they ARE the
+  lossy edits. -/
+
+theorem lossless_items_set (p : DNode) (k v : Str) :
+    items (losslessBackend.set p k v) = lossyBackend.set (items p) k v := by
+  show items (.node .PARAGRAPH (paraSet p.children k v)) = Deb.Lossy.pset (items p) k v
+  rw [C04.items_node_any, C04.C04_refine_set, pset_eq_set, items_children]
+
+theorem lossless_items_remove (p : DNode) (k : Str) :
+    items (losslessBackend.remove p k) = lossyBackend.remove (items p) k := by
+  show items (.node .PARAGRAPH (paraRemove p.children k)) = Deb.Lossy.premove (items p) k
+  rw [C04.items_node_any, C04.C04_refine_remove, premove_eq_remove, items_children]
+
+theorem lossless_get_items (p : DNode) : losslessBackend.get p = lossyBackend.get (items p) := by
+  funext k; exact get_eq_lookupFirst p k
+
+/-- every lossless paragraph reads the same as the lossy paragraph holding its items -/
+theorem C16_lossless_sameReads_items (p : DNode) : SameReads losslessBackend lossyBackend p (items p) :=
+  fun k => get_eq_lookupFirst p k
+
+/-- **the derived conversions on a lossless paragraph are the ones on the lossy paragraph of its
+    items**: `from_paragraph` gives the same value or the same error; `to_paragraph` builds a
+    paragraph whose items are the lossy result; `update_paragraph` on any tree leaves a tree whose
+    items are the lossy update of the old items (same order, same duplicates, same values) -/
+theorem C16_lossless_simulates_lossy (spec : List (FieldSpec V)) (x : List (Option V)) :
+    (∀ p : DNode, fromParagraph losslessBackend spec p = fromParagraph lossyBackend spec (items p))
+    ∧ items (toParagraph losslessBackend spec x) = toParagraph lossyBackend spec x
+    ∧ (∀ p : DNode, items (updateParagraph losslessBackend spec x p)
+        = updateParagraph lossyBackend spec x (items p)) := by
+  refine ⟨fun p => ?_, items_ofPairs _, ?_⟩
+  · unfold fromParagraph; rw [lossless_get_items]
+  · induction spec generalizing x with
+    | nil => intro p; cases x <;> rfl
+    | cons f fs ih =>
+      intro p
+      cases x with
+      | nil => rfl
+      | cons v vs =>
+        cases v with
+        | none => simp only [updateParagraph]; rw [ih vs, lossless_items_remove]
+        | some v => simp only [updateParagraph]; rw [ih vs, lossless_items_set]
+
+/-- **frame, on all items**: the fields whose name the struct does not own are the same list in
+    the same order after `update_paragraph` (duplicates and fields hidden behind an earlier field
+    of the same name included — `C16_update_frame` only sees what `get` shows) -/
+theorem C16_lossless_update_keeps_foreign_items (spec : List (FieldSpec V)) (x : List (Option V)) (p : DNode) :
+    foreign (specKeys spec) (items (updateParagraph losslessBackend spec x p))
+      = foreign (specKeys spec) (items p) := by
+  suffices h : ∀ ks, (∀ k ∈ specKeys spec, k ∈ ks) →
+      foreign ks (items (updateParagraph losslessBackend spec x p)) = foreign ks (items p) from
+    h _ (fun _ hk => hk)
+  intro ks
+  induction spec generalizing x p with
+  | nil => intro _; cases x <;> rfl
+  | cons f fs ih =>
+    intro hks
+    have hf : f.key ∈ ks := hks _ (by simp [specKeys])
+    have hfs : ∀ k ∈ specKeys fs, k ∈ ks := fun k hk => hks k (by
+      simp only [specKeys, List.map_cons, List.mem_cons]; right; exact hk)
+    cases x with
+    | nil => rfl
+    | cons v vs =>
+      cases v with
+      | none =>
+        simp only [updateParagraph]
+        rw [ih vs _ hfs, lossless_items_remove]
+        show foreign ks (Deb.Lossy.premove (items p) f.key) = _
+        rw [premove_eq_remove, foreign_remove _ _ _ hf]
+      | some v =>
+        simp only [updateParagraph]
+        rw [ih vs _ hfs, lossless_items_set]
+        show foreign ks (Deb.Lossy.pset (items p) f.key (f.ser v)) = _
+        rw [pset_eq_set, foreign_set _ _ _ _ hf]
+
+/-! ## Part D — inside a document; re-read -/
+
+open Deb822Verif.Spec in
+/-- `update_paragraph` as a history of field edits through handle `h` -/
+def updateOps (h : Nat) : List (FieldSpec V) → List (Option V) → List EditOp
+  | f :: fs, some v :: vs => .set h f.key (f.ser v) :: updateOps h fs vs
+  | f :: fs, none :: vs => .rm h f.key :: updateOps h fs vs
+  | _, _ => []
+
+open Deb822Verif.Spec in
+theorem run_updateOps (d : Doc) (h : Nat) (spec : List (FieldSpec V)) (x : List (Option V)) :
+    run d (updateOps h spec x) = d.onPara h (updateParagraph losslessKidsBackend spec x) := by
+  induction spec generalizing x d with
+  | nil => cases x <;> exact (onPara_id d h).symm
+  | cons f fs ih =>
+    cases x with
+    | nil => exact (onPara_id d h).symm
+    | cons v vs =>
+      cases v with
+      | none =>
+        simp only [updateOps, run, List.foldl_cons, step]
+        have := ih (d.onPara h fun cs => paraRemove cs f.key) vs
+        unfold run at this
+        rw [this, onPara_onPara]; rfl
+      | some v =>
+        simp only [updateOps, run, List.foldl_cons, step]
+        have := ih (d.onPara h fun cs => paraSet cs f.key (f.ser v)) vs
+        unfold run at this
+        rw [this, onPara_onPara]; rfl
+
+open Deb822Verif.Spec in
+theorem updateOps_valid (h : Nat) (spec : List (FieldSpec V)) (x : List (Option V))
+    (hv : ValidPairs (toFields spec x)) : ∀ o ∈ updateOps h spec x, o.Valid := by
+  induction spec generalizing x with
+  | nil => intro o ho; cases x <;> simp [updateOps] at ho
+  | cons f fs ih =>
+    cases x with
+    | nil => intro o ho; simp [updateOps] at ho
+    | cons v vs =>
+      cases v with
+      | none =>
+        intro o ho
+        simp only [updateOps, List.mem_cons] at ho
+        rcases ho with rfl | ho
+        · trivial
+        · exact ih vs (by simpa [toFields] using hv) o ho
+      | some v =>
+        intro o ho
+        simp only [updateOps, List.mem_cons] at ho
+        have hv' : ValidPairs ((f.key, f.ser v) :: toFields fs vs) := by simpa [toFields] using hv
+        rcases ho with rfl | ho
+        · exact hv' (f.key, f.ser v) (by simp)
+        · exact ih vs (fun kv hkv => hv' kv (by simp [hkv])) o ho
+
+/-- **`update_paragraph` on a paragraph of a document, through a live handle** (`h` → child slot
+    `i` of the root, children `cs`; any document tree): afterwards every handle on that paragraph
+    reads the updated paragraph, which converts back to `x`; every other handle reads the very same
+    node as before; the root's other children are untouched -/
+theorem C16_lossless_update_in_doc (d : Doc) (h i : Nat) (cs : List DNode)
+    (hi : d.handles[h]? = some (some i)) (hc : d.kids[i]? = some (.node .PARAGRAPH cs))
+    (spec : List (FieldSpec V)) (x : List (Option V))
+    (hn : (specKeys spec).Nodup) (hw : WellFormed spec x) (hcr : CodecsRoundTrip spec x) :
+    let d' := d.onPara h (updateParagraph losslessKidsBackend spec x)
+    let p' := updateParagraph losslessBackend spec x (.node .PARAGRAPH cs)
+    (∀ j, d'.para j = if d.handles[j]? = some (some i) then some p' else d.para j)
+    ∧ fromParagraph losslessBackend spec p' = .ok x
+    ∧ d'.handles = d.handles
+    ∧ d'.kids = d.kids.take i ++ p' :: d.kids.drop (i + 1) := by
+  intro d' p'
+  have hp : p' = .node .PARAGRAPH (updateParagraph losslessKidsBackend spec x cs) :=
+    lossless_update_kids spec x cs
+  refine ⟨fun j => ?_, C16_lossless_update_reads_back spec x _ hn hw hcr, ?_, ?_⟩
+  · rw [hp]; exact C04.C04_frame_handles d h i cs _ hi hc j
+  · show (d.onPara h _).handles = d.handles
+    unfold Doc.onPara; simp only [hi, hc]
+  · rw [hp]; exact C04.onPara_kids d h i cs _ hi hc
+
+open Deb822Verif.Spec in
+/-- **the update survives a re-read**: `d` a parsed well-formed document, `update_paragraph` through
+    a live handle with valid names and serialised values (`ValidPairs` of the `fields` vector:
+    `ValidKey` names, `ValidValue` texts — the domain of C04): the printed document is accepted by
+    the strict reader without error and reads back to the old paragraphs, the touched one replaced
+    by the LOSSY update of its items (a paragraph left without fields is not seen) -/
+theorem C16_lossless_update_reread (d0 : DocS) (hwf : d0.WF) (d : Doc) (hd : d.kids = d0.tree.children)
+    (h i : Nat) (cs : List DNode) (hi : d.handles[h]? = some (some i))
+    (hc : d.kids[i]? = some (.node .PARAGRAPH cs))
+    (spec : List (FieldSpec V)) (x : List (Option V)) (hv : ValidPairs (toFields spec x)) :
+    let d' := d.onPara h (updateParagraph losslessKidsBackend spec x)
+    ∃ s : DocS, s.WF ∧ s.str = d'.root.text ∧ parse d'.root.text = ⟨s.tree, []⟩
+      ∧ readStrict d'.root.text = .ok s.tree
+      ∧ docItems s.tree = (docItems (.node .ROOT (d.kids.take i)) ++
+          updateParagraph lossyBackend spec x (pitems cs)
+            :: docItems (.node .ROOT (d.kids.drop (i + 1)))).filter C04.nonEmpty := by
+  intro d'
+  obtain ⟨s, h1, h2, h3, h4, h5⟩ :=
+    C04.C04_reread_history d0 hwf d hd (updateOps h spec x) (updateOps_valid h spec x hv)
+  simp only [run_updateOps] at h2 h3 h4 h5
+  refine ⟨s, h1, h2, h3, h4, ?_⟩
+  rw [h5]
+  show (docItems (.node .ROOT d'.kids)).filter _ = _
+  rw [C04.content_onPara d h i cs _ hi hc]
+  have := (C16_lossless_simulates_lossy spec x).2.2 (.node .PARAGRAPH cs)
+  rw [lossless_update_kids, C04.items_node_any, C04.items_node_any] at this
+  rw [this]
+
+open Deb822Verif.Spec in
+/-- **the round trip survives a re-read**: with valid names and serialised values and at least one
+    present field, the text of `to_paragraph(x)` is accepted by `Paragraph::from_str`, the paragraph
+    read has exactly the `fields` vector as items, and `from_paragraph` of it is `Ok(x)` -/
+theorem C16_lossless_roundtrip_reread (spec : List (FieldSpec V)) (x : List (Option V))
+    (hn : (specKeys spec).Nodup) (hw : WellFormed spec x) (hcr : CodecsRoundTrip spec x)
+    (hv : ValidPairs (toFields spec x)) (hne : toFields spec x ≠ []) :
+    ∃ t, paragraphFromStr (toParagraph losslessBackend spec x).text = .ok t
+      ∧ items t = toFields spec x
+      ∧ fromParagraph losslessBackend spec t = .ok x := by
+  let d : Doc := ⟨docOfParas ([toFields spec x].map paraOfPairs), [some 0]⟩
+  obtain ⟨s, -, -, -, h4, h5⟩ := C04.C04_reread_history_built [toFields spec x]
+    (by intro p hp; simp only [List.mem_singleton] at hp; subst hp; exact hv) d rfl [] (by simp)
+  have htext : (run d []).root.text = (toParagraph losslessBackend spec x).text := by
+    simp [run, d, Doc.root, docOfParas, toParagraph, losslessBackend]
+  rw [htext] at h4
+  have hitems : docItems (run d []).root = [toFields spec x] := by
+    have : items (paraOfPairs (toFields spec x)) = toFields spec x := items_ofPairs _
+    simpa [run, d, Doc.root, docOfParas, docItems, paragraphs, Node.children, paraOfPairs, Node.isNode,
+      Node.kind] using this
+  rw [hitems] at h5
+  have hne' : C04.nonEmpty (toFields spec x) = true := by
+    cases hl : toFields spec x with
+    | nil => exact absurd hl hne
+    | cons a b => rfl
+  simp only [List.filter_cons, hne', ↓reduceIte, List.filter_nil] at h5
+  unfold docItems at h5
+  cases hps : paragraphs s.tree with
+  | nil => rw [hps] at h5; simp at h5
+  | cons t ts =>
+    rw [hps] at h5
+    simp only [List.map_cons, List.cons.injEq, List.map_eq_nil_iff] at h5
+    refine ⟨t, ?_, h5.1, ?_⟩
+    · simp only [paragraphFromStr, h4, hps]
+    · rw [(C16_lossless_simulates_lossy spec x).1 t, h5.1]
+      exact C16_lossy_roundtrip spec x hn hw hcr
+
 end Deb822Verif.Props.C16
